@@ -17,9 +17,8 @@ TECHNIQUE = (
 EXPLANATION = (
     "Decides, for every public entry point of the package (enumerated from the tree on every run; mutators by design "
     "are a named table): (FX-PARAM) it modifies nothing reachable from its arguments; (FX-SELF) methods that are not "
-    "mutators by design do not modify their receiver; (FX-FRESH) results promised independent (to_logicfun, bind, "
-    "QCircuit.copy/__add__/repeat, circuit_boolean_optimizer) are freshly allocated and share no field with an "
-    "operand; (FX-DEFAULT) no mutable or stateful default argument object is itself modified, stored, returned or "
+    "mutators by design do not modify their receiver; (FX-FRESH) results promised independent (QCircuit.copy/__add__/repeat) are freshly allocated and share "
+    "no field with an operand; (FX-DEFAULT) no mutable or stateful default argument object is itself modified, stored, returned or "
     "handed to code outside the repository; (FX-GLOBAL) no user-controlled code is exec'd in, and no user-controlled "
     "name is looked up in, a library module's namespace; (FX-MODSTATE) no function writes a module-level object, "
     "re-binds a module global or memoises on argument equality; (FX-SHARED) module-level optimizer instances are "
@@ -61,12 +60,10 @@ EXEMPT_ORIGINS = {
     ("qcircuit.qcircuit.QCircuit.copy", "__native"): "copy() clears the private cached text rendering of the circuit; not observable state",
 }
 FRESH_RESULTS = {
-    "qlassfun.QlassF.to_logicfun": None,
+    # only where the property itself promises an independent result (C14: copy / + / repeat)
     "qcircuit.qcircuit.QCircuit.copy": None,
     "qcircuit.qcircuit.QCircuit.__add__": None,
     "qcircuit.qcircuit.QCircuit.repeat": None,
-    "decompiler.decopt.circuit_boolean_optimizer": ["qc"],
-    "decompiler.decompiler.Decompiler.decompile": ["qc"],
 }
 
 
